@@ -123,10 +123,10 @@ PROPS = {    "C01": {
     },
     "C03": {
         "obligations": [
-            run_ob("C03.count", "VerifHarness_RUN_C03_n3", 0, "VerifHarness_RUN_C03_n3", 1, bq={"N": 3, "R": 1}, bt={"N": 3, "R": 1},
+            run_ob("C03.count", "VerifHarness_RUN_C03_n3", 0, "VerifHarness_RUN_C03_n3r2", 0, bq={"N": 3, "R": 1}, bt={"N": 3, "R": 2},
                    must=["C03.count/failing-step-is-retried-until-limit", "C03.count/recorded-retry-count-equals-extra-attempts"]),
             any_ob("C03"),
-            run_ob("C03.count-d1", "VerifHarness_RUN_C03_n2", 1, "VerifHarness_RUN_C03_n2", 2, bq={"N": 2, "R": 2}, bt={"N": 2, "R": 2},
+            run_ob("C03.count-d1", "VerifHarness_RUN_C03_n2", 1, None, None, bq={"N": 2, "R": 2},
                    must=["C03.count/failing-step-is-retried-until-limit"]),
             ag_ob("C03.dryagent", "VerifHarness_AG_dry", ["C03."], ["C03.dryagent/no-history-is-written", "C03.dryagent/no-step-or-handler-command-runs"], {"steps": 2, "shape": "chain | parallel", "handlers": "onExit"}),
             run_ob("C03.dry", "VerifHarness_RUN_C03_dry3", 0, "VerifHarness_RUN_C03_dry3", 1, bq={"N": 3}, bt={"N": 3},
